@@ -683,6 +683,8 @@ class Evaluator:
             st = self.ev(n.slice.step) if n.slice.step is not None else None
             if isinstance(base, (list, tuple, str)):
                 return base[lo:hi:st]
+            if isinstance(base, Vec):
+                return Vec(base.vals[lo:hi:st])
             raise Unsupported("slice of abstract value", n)
         idx = self.ev(n.slice)
         if isinstance(base, Sym):
@@ -1207,7 +1209,10 @@ class Evaluator:
             }
             for ty, names in table.items():
                 if isinstance(base, ty) and attr in names:
-                    r = getattr(base, attr)(*args)
+                    try:
+                        r = getattr(base, attr)(*args)
+                    except (KeyError, IndexError, ValueError, TypeError) as exc:
+                        raise AbsRaise(type(exc).__name__, call)
                     if attr in ("items", "keys", "values"):
                         r = list(r)
                     return True, r
